@@ -13,7 +13,7 @@ import traceback
 
 
 def gen_corpus(rnd):
-    n = rnd.randint(2, 10)
+    n = rnd.randint(2, 14)
     docs = []
     for i in range(n):
         docs.append({"num": rnd.choice([1, 2, 2, 3, 5, -4]), "txt": rnd.choice(["alfa", "bravo", "bravo", "charlie", "delta"]),
@@ -21,7 +21,14 @@ def gen_corpus(rnd):
                      "tf": rnd.choice([1, 1, 2, 3]), "hit": rnd.random() < 0.8})
     cuts = sorted(set(rnd.sample(range(1, n), rnd.choice([0, 0, 1, 2])))) if n > 2 else []
     deleted = sorted(rnd.sample(range(n), rnd.choice([0, 0, 1, 2]))) if n > 3 else []
-    return {"docs": docs, "cuts": cuts, "deleted": deleted, "sortable": rnd.random() < 0.6}
+    sortable = rnd.random() < 0.6
+    # sometimes one whole segment has no value at all for the numeric field (no column file in that segment)
+    nonum = None
+    if sortable and cuts and rnd.random() < 0.5:
+        bounds = [0] + cuts + [n]
+        k = rnd.randrange(len(bounds) - 1)
+        nonum = [bounds[k], bounds[k + 1]]
+    return {"docs": docs, "cuts": cuts, "deleted": deleted, "sortable": sortable, "nonum": nonum}
 
 
 def build(corpus):
@@ -39,8 +46,12 @@ def build(corpus):
         w = ix.writer()
         for i in range(start, end):
             d = docs[i]
-            w.add_document(k=str(i), body=("zz " + "aa " * d["tf"]) if d["hit"] else "zz", num=d["num"], txt=d["txt"],
-                           tags=" ".join(d["tags"]))
+            kw = {}
+            nn = corpus.get("nonum")
+            if not (nn and nn[0] <= i < nn[1]):
+                kw["num"] = d["num"]
+            w.add_document(k=str(i), body=("zz " + "aa " * d["tf"]) if d["hit"] else "zz", txt=d["txt"],
+                           tags=" ".join(d["tags"]), **kw)
         w.commit(merge=False)
         start = end
     if corpus["deleted"]:
@@ -71,8 +82,11 @@ def check_corpus(corpus, fails, counts):
         def ks(res):
             return [d2k[h.docnum] for h in res]
         try:
-            # ---- sorting
-            for fld, keyf in (("num", lambda i: docs[i]["num"]), ("txt", lambda i: docs[i]["txt"])):
+            # ---- sorting (a document without a value sorts with the column default: the largest 32-bit value)
+            nn = corpus.get("nonum")
+            dflt = s.schema["num"].from_column_value(s.schema["num"].default)
+            numkey = lambda i: dflt if (nn and nn[0] <= i < nn[1]) else docs[i]["num"]
+            for fld, keyf in (("num", numkey), ("txt", lambda i: docs[i]["txt"])):
                 for rev in (False, True):
                     exp = sorted(hits, key=lambda i: k2d[i])
                     exp = sorted(exp, key=keyf, reverse=rev)           # stable: document order on ties
@@ -86,7 +100,7 @@ def check_corpus(corpus, fails, counts):
                     if got != exp:
                         fail("C14-sort-facet-%s%s" % (fld, "-reverse" if rev else ""), "FieldFacet(%s, reverse=%s) -> %r expected %r" % (fld, rev, got, exp))
             mf = sorting.MultiFacet([sorting.FieldFacet("txt"), sorting.FieldFacet("num", reverse=True)])
-            exp = sorted(sorted(sorted(hits, key=lambda i: k2d[i]), key=lambda i: -docs[i]["num"]), key=lambda i: docs[i]["txt"])
+            exp = sorted(sorted(sorted(hits, key=lambda i: k2d[i]), key=lambda i: -numkey(i)), key=lambda i: docs[i]["txt"])
             got = ks(s.search(q, limit=None, sortedby=mf))
             if got != exp:
                 fail("C14-sort-multi", "MultiFacet(txt, num desc) -> %r expected %r" % (got, exp))
@@ -112,7 +126,7 @@ def check_corpus(corpus, fails, counts):
             g = dict((k, sorted(d2k[d] for d in v)) for k, v in r.groups("num").items())
             expg = {}
             for i in hits:
-                expg.setdefault(docs[i]["num"], []).append(i)
+                expg.setdefault(numkey(i), []).append(i)
             expg = dict((k, sorted(v)) for k, v in expg.items())
             if g != expg:
                 fail("C14-group-limit", "groups(num) under limit=2 = %r expected %r" % (g, expg))
@@ -127,6 +141,18 @@ def check_corpus(corpus, fails, counts):
                         cnt[key] = cnt.get(key, 0) + 1
                 if ks(r) != exp:
                     fail("C14-collapse-%d" % lim, "collapse=txt limit=%d -> %r expected %r" % (lim, ks(r), exp))
+            # ---- collapse under a limit (TopCollector.remove); optimize=False: with block-quality skipping the
+            # collapsed top-N is a recorded known finding
+            for lim, k in ((1, 3), (1, 6), (2, 6)):
+                r = s.search(q, limit=k, collapse="txt", collapse_limit=lim, optimize=False)
+                exp, cnt = [], {}
+                for i in ranked:
+                    key = docs[i]["txt"]
+                    if cnt.get(key, 0) < lim:
+                        exp.append(i)
+                        cnt[key] = cnt.get(key, 0) + 1
+                if ks(r) != exp[:k]:
+                    fail("C14-collapse-limit", "collapse=txt collapse_limit=%d limit=%d optimize=False -> %r expected %r" % (lim, k, ks(r), exp[:k]))
             # ---- filter / mask
             fq = query.Term("tags", "red")
             red = set(i for i in live if "red" in docs[i]["tags"])
